@@ -176,6 +176,7 @@ class Builder:
         self.unit_rules = set(R.DEFAULT_RULES)
         self.extra_subs = []   # unit-wide substitutions: (name, regex, repl)
         self.defines = {}
+        self.known_consts = set()     # const / static names already present in the output
 
     def _expand(self, text):
         for _ in range(4):
@@ -199,8 +200,57 @@ class Builder:
             self.out_lines.append(ln)
 
     def build(self, template_path):
+        self._prescan(template_path, set())
         self._process_file(template_path, set())
         return '\n'.join(self.out_lines) + '\n'
+
+    def _prescan(self, path, seen):
+        """collect the names of consts the templates declare themselves (directives or hand-written), so that the
+        automatic const inclusion does not duplicate them"""
+        if path in seen or not os.path.exists(path):
+            return
+        seen.add(path)
+        for ln in _read(path).split('\n'):
+            st = ln.strip()
+            m = re.match(r'//@include\s+(\S+)', st)
+            if m:
+                self._prescan(os.path.join(os.path.dirname(path), m.group(1)), seen)
+            m = re.match(r'//@(?:const|static)\s+.*::\s*(\w+)\s*$', st)
+            if m:
+                self.known_consts.add(m.group(1))
+            m = re.search(r'\b(?:const|static)\s+([A-Z][A-Z0-9_]+)\s*:', st)
+            if m and not st.startswith('//'):
+                self.known_consts.add(m.group(1))
+
+    def _auto_consts(self, rel, src, text):
+        """R17: a file-level `const NAME: T = ...;` referenced by an extracted function is extracted with it"""
+        for name in sorted(set(re.findall(r'\b([A-Z][A-Z0-9_]{2,})\b', rs.strip_comments(text)))):
+            if name in self.known_consts:
+                continue
+            try:
+                it = rs.find_item(src, 'const', name, None)
+            except rs.ScanError:
+                continue
+            orig = src[it.attrs_start:it.end]
+            fired = {'R17': 1}
+            ctext = R.apply_rules(rs.strip_comments(orig), self.unit_rules, fired, self.extra_subs)
+            ctext = re.sub(r'^\s*(pub(\([^)]*\))?\s+)?const\b', 'pub const', ctext.strip())
+            e = Emitted()
+            e.kind = 'const'
+            e.ident = name
+            e.impl = None
+            e.mode = 'verbatim'
+            e.src_file = rel
+            l0 = src.count('\n', 0, it.attrs_start) + 1
+            e.src_lines = (l0, l0 + orig.count('\n'))
+            e.sha256 = hashlib.sha256(orig.encode()).hexdigest()
+            e.rules = fired
+            start = len(self.out_lines) + 1
+            self.emit(ctext)
+            e.gen_lines = (start, len(self.out_lines))
+            e.directive = 'auto const ' + name
+            self.emitted.append(e)
+            self.known_consts.add(name)
 
     def _process_file(self, path, seen):
         if path in seen:
@@ -315,6 +365,8 @@ class Builder:
             od.setdefault(k, v)
         mode = od.get('mode', 'verify').strip()
         orig = src[it.start:it.end]
+        if mode == 'verify' and not (impl and impl not in ('-', '')):
+            self._auto_consts(rel, src, orig)
         fired = {}
         text = rs.strip_comments(orig)
         text = R.apply_rules(text, self.unit_rules, fired, self.extra_subs)
